@@ -75,8 +75,17 @@ def gate(v):
                 encoding_ok = False
             notes.append(f'{prof}: native {native.norm_impl(nat["impl"], kind)} vs predicted {native.norm_impl(pred, kind)}')
     if confirmed: return 'confirmed', {'native': results, 'notes': notes}
-    if pred is not None and pred.get('status') == 'PANIC': return 'unconfirmable', {'native': results, 'notes': notes}
+    if pred is not None and pred.get('status') == 'PANIC': return ('unconfirmable' if ub_class(v) else 'mismatch'), {'native': results, 'notes': notes}
     return ('mismatch' if not encoding_ok else 'unconfirmed'), {'native': results, 'notes': notes}
+
+
+UB_MARKERS = ('oob:', 'uninit:', 'ptrcmp:', 'align:', 'out-of-bounds', 'out-of-allocation', 'past the end of', 'leaves the allocation', 'uninitialized', 'uninitialised')
+
+
+def ub_class(v):
+    """standard-level undefined behaviour that no native run reliably shows (reported separately, as the only unconfirmed kind)"""
+    m = v.get('msg', '') + ' ' + str((v.get('predicted') or {}).get('panic', ''))
+    return any(k in m for k in UB_MARKERS)
 
 
 def native_entry(kind, api):
@@ -230,6 +239,9 @@ def run_property(pid, tier, seed, module_name=None, post=None):
         seen.add(key)
         if len(reported) >= 5: break
         st, det = gate(v)
+        if st == 'unconfirmable' and not ub_class(v):
+            # a counterexample that a native run SHOULD show (panic, wrong result, race) but did not: never reported as a violation
+            st = 'unconfirmed'
         if st == 'confirmed' or st == 'unconfirmable':
             kf = match_known(v, known)
             if kf is not None:
